@@ -158,7 +158,9 @@ def rule_validate(ctx, ts):
     for cond, body in kinds.items():
         if cond == "else":
             continue
-        for p in j2text.render_paths(N, body):
+        # helper macros are expanded in place, except assign_array, which has a rule of its own and is an atomic event here
+        helpers = {k: v for k, v in ts.macros(t).items() if k != "assign_array"}
+        for p in j2text.render_paths(N, body, macros=helpers):
             n_paths += 1
             tree = _parse(p, f"setter branch {cond}")
             fid = p.name_of(FID)
@@ -191,7 +193,11 @@ def rule_validate(ctx, ts):
                     conv = any(isinstance(s, ast.Assign) and ast.unparse(s) == "x = int(x)" for s in tree.body)
                     ctx.ob(R, t.rel, f"{label}: value converted with int() before the check", conv, "", chain.lineno)
                 elif cond == "(f.data_type is FloatType)":
-                    if ("(f.data_type.bit_length < 64)", True) in p.conds:
+                    widths = _float_widths(p.conds)
+                    if widths is None:
+                        ctx.ob(R, t.rel, f"{label}: width condition understood", False, f"cannot evaluate {p.conds} over float widths", chain.lineno)
+                        continue
+                    if widths - {64}:
                         in_range = None
                         for s in tree.body:
                             if isinstance(s, ast.Assign) and isinstance(s.targets[0], ast.Name) and lo and hi and \
@@ -200,7 +206,7 @@ def rule_validate(ctx, ts):
                         ok = in_range is not None and any(e.replace(" ", "") in (f"{in_range}ornot_np_.isfinite(x)", f"not_np_.isfinite(x)or{in_range}") for e in pos)
                         why = "range-or-non-finite" if ok else f"stored under {terms}"
                     else:
-                        ok = ast.unparse(st.value) == "float(x)" and not terms
+                        ok = widths == {64} and ast.unparse(st.value) == "float(x)" and not terms
                         why = "float64 covers the native range" if ok else "unexpected float64 handling"
                 elif cond == "(f.data_type is CompositeType)":
                     ty = p.name_of("(f.data_type | full_reference_name)")
@@ -371,6 +377,34 @@ def rule_union(ctx, ts):
     ctx.ob(R, t.rel, "union __init__: the default option is type.fields[0]", ok, "", init_if.lineno)
 
 
+def _float_widths(conds):
+    """the float widths (16/32/64) consistent with the path's conditions on f.data_type.bit_length, whatever comparison spells them;
+    None when a condition on the width cannot be evaluated"""
+    W = "f.data_type.bit_length"
+    out = set()
+    for b in (16, 32, 64):
+        keep = True
+        for e, pol in conds:
+            if W not in e:
+                continue
+            try:
+                tree = ast.parse(e.replace(W, "B"), mode="eval")
+                for n in ast.walk(tree):
+                    if not isinstance(n, (ast.Expression, ast.Compare, ast.BoolOp, ast.UnaryOp, ast.Not, ast.And, ast.Or, ast.Constant, ast.Name,
+                                          ast.Load, ast.cmpop)):
+                        return None
+                    if isinstance(n, ast.Name) and n.id != "B":
+                        return None
+                val = bool(eval(compile(tree, "<cond>", "eval"), {"__builtins__": {}}, {"B": b}))
+            except Exception:
+                return None
+            if val != pol:
+                keep = False
+        if keep:
+            out.add(b)
+    return out
+
+
 def rule_model(ctx, ts, px):
     R = "R-C18-MODEL"
     ctx.rule(
@@ -421,11 +455,16 @@ def rule_model(ctx, ts, px):
 
     # the encoder chain, outermost first, with hoisted intermediate locals put back (pickled = pickle.dumps(x); gzip.compress(pickled) ...)
     enc = []
-    outer = [c for c in ast.walk(f.node) if isinstance(c, ast.Call) and ast.unparse(c.func) == "base64.b85encode"]
-    cur = pyfront.subst_locals(f.node, outer[0]) if outer else None
-    while isinstance(cur, ast.Call) and ast.unparse(cur.func) in ("base64.b85encode", "gzip.compress", "pickle.dumps"):
-        enc.append(ast.unparse(cur.func))
-        cur = pyfront.subst_locals(f.node, cur.args[0]) if cur.args else None
+    # the chain may live in a private helper of the module that filter_pickle calls
+    for g in [f] + pyfront.private_helpers(px, f, 2):
+        outer = [c for c in ast.walk(g.node) if isinstance(c, ast.Call) and ast.unparse(c.func) == "base64.b85encode"]
+        if not outer:
+            continue
+        cur = pyfront.subst_locals(g.node, outer[0])
+        while isinstance(cur, ast.Call) and ast.unparse(cur.func) in ("base64.b85encode", "gzip.compress", "pickle.dumps"):
+            enc.append(ast.unparse(cur.func))
+            cur = pyfront.subst_locals(g.node, cur.args[0]) if cur.args else None
+        break
     pairs = {"pickle.loads": "pickle.dumps", "gzip.decompress": "gzip.compress", "base64.b85decode": "base64.b85encode"}
     want = [pairs.get(d) for d in dec]
     ok = enc == want[::-1] and len(dec) == 3
